@@ -88,8 +88,17 @@ func (pipeline *Pipeline) directDepsMap() (map[*CallStm]map[*CallStm]struct{}, e
 func (pipeline *Pipeline) findMissingDeps(src *CallStm, deps map[*CallStm]struct{},
 	depsMap map[*CallStm]map[*CallStm]struct{}) ([]*CallStm, error) {
 	var missing []*CallStm
-	for dep := range deps {
-		for transDep := range depsMap[dep] {
+	// Iterate in the order the calls are written, so that the error
+	// reported for a cycle does not depend on map iteration order.
+	for _, dep := range pipeline.Calls {
+		if _, ok := deps[dep]; !ok {
+			continue
+		}
+		transDeps := depsMap[dep]
+		for _, transDep := range pipeline.Calls {
+			if _, ok := transDeps[transDep]; !ok {
+				continue
+			}
 			if _, ok := deps[transDep]; !ok {
 				if transDep == src {
 					return nil, &wrapError{
@@ -114,7 +123,11 @@ func (pipeline *Pipeline) addNextDeps(depsMap map[*CallStm]map[*CallStm]struct{}
 	for changes {
 		extraDeps := make(map[*CallStm][]*CallStm)
 		var errs ErrorList
-		for src, deps := range depsMap {
+		for _, src := range pipeline.Calls {
+			deps, ok := depsMap[src]
+			if !ok {
+				continue
+			}
 			if missing, err := pipeline.findMissingDeps(src, deps, depsMap); err != nil {
 				errs = append(errs, err)
 			} else if len(missing) > 0 {
